@@ -26,7 +26,7 @@ import (
 	"sync"
 	"testing"
 
-	"github.com/KafScale/platform/addons/processors/iceberg-processor/internal/discovery"
+	"github.com/kafscale/platform/addons/processors/sql-processor/internal/discovery"
 	"pgregory.net/rapid"
 	"verif.local/vfkit"
 )
